@@ -286,8 +286,10 @@ def _fmt_ident_auto(e: dict) -> Optional[str]:
         ok = False
         if isinstance(a_, dict):
             t = a_.get("ty") or ""
-            if a_.get("k") == "local" and re.search(r"\bIdent\b", t):
+            if a_.get("k") in ("local", "field") and re.search(r"\bIdent$", t):
                 ok = True
+            if t.lstrip("&") in INT_TYPES and re.match(r"^[A-Za-z_]", fmt):
+                ok = True        # decimal digits after an identifier start
             co = H.call_of(a_)
             if co and str(co[0].get("def", "")).endswith("snakify"):
                 ok = True
@@ -554,50 +556,68 @@ VETTED_DROPS: Dict[str, str] = {
 # G3: entry points
 # ------------------------------------------------------------------------------------------------
 
-def entry_point_report(gen: Gen, f: dict) -> List[str]:
-    """Reasons why the entry point does not convert every error into compile_error! tokens (empty = ok)."""
-    problems = []
-    tree = f["body"]["tree"]
-    pmi = [n for n in H.walk(tree) if n.get("k") == "macro" and n.get("name") == "parse_macro_input"]
-    ok_parse = False
-    for m in pmi:
-        has_parse = any(n.get("k") == "path" and str(n.get("def", "")).startswith("syn::parse") for n in H.walk(m))
-        has_ret = any(n.get("k") == "ret" and any(x.get("k") == "mcall" and x.get("def") in ("syn::error::Error::to_compile_error", "syn::error::Error::into_compile_error") for x in H.walk(n)) for n in H.walk(m))
-        if has_parse and has_ret:
-            ok_parse = True
-    if not ok_parse:
-        problems.append("input is not parsed with parse_macro_input! (parse error -> compile_error)")
-    inner_calls = []
-    converted = []
-
-    def visit(e: Any, parent_mcall: Optional[dict]):
-        if isinstance(e, list):
-            for x in e:
-                visit(x, None)
-            return
-        if not isinstance(e, dict):
-            return
-        if e.get("k") == "call":
-            fp = H.strip(e["f"])
-            if isinstance(fp, dict) and fp.get("crate") == "strum_macros" and fp.get("dk") == "Fn" and is_syn_result(e.get("ty")):
-                inner_calls.append(e)
-                pm = parent_mcall
-                if pm is not None and pm["name"] == "unwrap_or_else" and pm["args"]:
-                    if any(x.get("k") == "mcall" and x.get("def") in ("syn::error::Error::to_compile_error", "syn::error::Error::into_compile_error") for x in H.walk(pm["args"][0])):
-                        converted.append(e)
-        for key, v in e.items():
-            if key in ("ty", "at", "base_ty"):
+def wrapper_region(gen: Gen, f: dict) -> List[dict]:
+    """The entry point plus the local helper functions it calls that are not generators (do not return syn::Result):
+    the code that parses the input and turns the generator's Result into tokens."""
+    region = [f]
+    seen = {f["path"]}
+    work = [f]
+    while work:
+        g = work.pop()
+        for p in gen._edges.get(g["path"], ()):
+            h = gen.fns.get(p)
+            if h is None or p in seen:
                 continue
-            if e.get("k") == "mcall" and key == "recv":
-                visit(v, e)
-            else:
-                visit(v, None)
+            out_ty = ((h.get("sig") or {}).get("output") or {}).get("s", "")
+            if is_syn_result(out_ty):
+                continue            # a generator (or parser) proper
+            if "TokenStream" in out_ty or out_ty in ("()",):
+                seen.add(p)
+                region.append(h)
+                work.append(h)
+    return region
 
-    visit(tree, None)
-    if len(inner_calls) != 1:
-        problems.append("expected exactly one call to an inner generator returning syn::Result, found %d" % len(inner_calls))
-    if len(converted) != len(inner_calls):
-        problems.append("the inner generator's Err is not converted with unwrap_or_else(|e| e.to_compile_error())")
+
+CONVERT = ("syn::error::Error::to_compile_error", "syn::error::Error::into_compile_error")
+
+
+def entry_point_report(gen: Gen, f: dict) -> List[str]:
+    """Reasons why the entry point does not convert every error into compile_error! tokens (empty = ok).
+
+    Checked over the wrapper region, so that sharing the boilerplate of the 18 entry points in a helper is fine:
+    (a) the input is parsed as syn::DeriveInput and a parse error is converted with to_compile_error and returned;
+    (b) a value of type Result<TokenStream, syn::Error> (the generator's result) is converted with
+        unwrap_or_else(|e| e.to_compile_error()) or an equivalent match; (G2 separately forbids dropping it)."""
+    problems = []
+    region = wrapper_region(gen, f)
+    ok_parse = False
+    converted = False
+    produces = False
+    for g in region:
+        tree = g["body"]["tree"]
+        for n in H.walk(tree):
+            k = n.get("k")
+            if k == "macro" and n.get("name") == "parse_macro_input":
+                if any(x.get("k") == "mcall" and x.get("def") in CONVERT for x in H.walk(n)):
+                    ok_parse = True
+            if k == "match" and isinstance(n.get("scrut_ty"), str) and n["scrut_ty"].startswith("core::result::Result<syn::derive::DeriveInput"):
+                if any(x.get("k") == "mcall" and x.get("def") in CONVERT for x in H.walk(n["arms"])):
+                    ok_parse = True
+            if k in ("call", "mcall") and is_syn_result(n.get("ty")) and "TokenStream" in (n.get("ty") or ""):
+                produces = True
+            if k == "mcall" and n["name"] in ("unwrap_or_else", "map_or_else", "map_err") and is_syn_result(n.get("recv_ty")) and n["args"]:
+                if any(x.get("k") == "mcall" and x.get("def") in CONVERT for x in H.walk(n["args"])) or any(
+                        isinstance(H.strip(a), dict) and H.strip(a).get("k") == "path" and H.strip(a).get("def") in CONVERT for a in n["args"]):
+                    converted = True
+            if k == "match" and is_syn_result(n.get("scrut_ty")) and "TokenStream" in (n.get("scrut_ty") or ""):
+                if any(x.get("k") == "mcall" and x.get("def") in CONVERT for x in H.walk(n["arms"])):
+                    converted = True
+    if not ok_parse:
+        problems.append("the input is not parsed as DeriveInput with the parse error converted by to_compile_error")
+    if not produces:
+        problems.append("no generator returning syn::Result<TokenStream> is called")
+    elif not converted:
+        problems.append("the generator's Err is not converted with to_compile_error")
     return problems
 
 
@@ -615,9 +635,14 @@ CASE_CALLS = {
 }
 
 
-def case_calls(e: Any) -> List[str]:
-    """Ordered (evaluation order) list of casing-relevant callees in an expression."""
+def case_calls(e: Any, gen: Optional["Gen"] = None, depth: int = 3) -> List[str]:
+    """Ordered (evaluation order) list of casing-relevant callees in an expression; calls into local helper functions are
+    followed (bounded depth) so that extracting a helper does not change the list."""
     out: List[str] = []
+
+    def local_callee(d: str):
+        if gen is not None and depth > 0 and d in gen.fns:
+            out.extend(case_calls(gen.fns[d]["body"]["tree"], gen, depth - 1))
 
     def visit(n: Any):
         if isinstance(n, list):
@@ -634,6 +659,8 @@ def case_calls(e: Any) -> List[str]:
                 out.append(d.split("::")[-1])
             elif d in CASE_CALLS:
                 out.append(CASE_CALLS[d])
+            else:
+                local_callee(d)
             return
         if n.get("k") == "call":
             visit(n["args"])
@@ -643,6 +670,8 @@ def case_calls(e: Any) -> List[str]:
                 out.append(d.split("::")[-1])
             elif d in CASE_CALLS:
                 out.append(CASE_CALLS[d])
+            else:
+                local_callee(d)
             return
         for key, v in n.items():
             if key in ("ty", "at", "base_ty"):
@@ -698,7 +727,7 @@ class Casing:
                     for alt in H.pat_alternatives(arm["pat"]):
                         vp = H.variant_pat(alt)
                         if vp and vp.adt == self.style_ty:
-                            self.dispatch.setdefault(vp.variant, case_calls(arm["body"]))
+                            self.dispatch.setdefault(vp.variant, case_calls(arm["body"], gen))
         short = self.style_ty.split("::")[-1]
         for p, f in gen.fns.items():
             if f.get("impl_trait") == "core::str::traits::FromStr" and f["name"] == "from_str" and (f.get("impl_self") or "").split("::")[-1] == short:
@@ -778,6 +807,10 @@ def disabled_reads(gen: Gen) -> Dict[str, List[str]]:
     """derive -> functions reachable from its entry point that READ the `disabled` field of the variant properties."""
     readers = set()
     for p, f in gen.fns.items():
+        # the function that builds the properties struct (the attribute parser) may consult the field while parsing; it is
+        # not a *consumer* of the flag
+        if any(n.get("k") == "struct" and str((n.get("ty") or {}).get("adt", "") if isinstance(n.get("ty"), dict) else n.get("ty") or "").endswith("VariantProperties") for n in H.walk(f["body"]["tree"])):
+            continue
         lhs_ids = set()
         for n in H.walk(f["body"]["tree"]):
             if n.get("k") == "assign":
